@@ -111,8 +111,14 @@ def _one_refactor(args):
             with open(p, "w", encoding="utf-8") as f:
                 f.write(s)
         viol, inc, floors = _run_rules(prop, d)
+        # a refactor that edits the very construct of a recorded finding re-reports that finding (its digest no longer
+        # matches): the construct violates the property before and after, so this is not a false alarm
+        restated = [v for v in viol if v[2].startswith("[the construct of a recorded finding has been edited")]
+        viol = [v for v in viol if v not in restated]
         if viol:
             return ("false-alarm", desc, f"{viol[0][0]}: {viol[0][2][:140]}")
+        if restated:
+            return ("silent", desc, f"(re-states the recorded finding {restated[0][0]} whose construct the refactor edits)")
         if inc or floors:
             return ("inconclusive", desc, str((inc or floors)[0])[:140])
         return ("silent", desc, "")
